@@ -352,6 +352,11 @@ func applyAct(e *Edge, root ygot.GoStruct, sch *yang.Entry, pkg *reg.Pkg, x *con
 					fmt.Sprintf("SetNode with TolerateJSONInconsistencies modified the TypedValue it was given: %v -> %v", numBefore, num), &TreeCase{Sub: "tree", Edge: e, Pkg: pkg.Name, Variant: x.V.Name, Seed: x.Seed, Enc: enc})
 			}
 		}
+	case "goc":
+		callErr, pan = guard(func() error {
+			_, _, err := ytypes.GetOrCreateNode(sch, root, path)
+			return err
+		})
 	case "delete":
 		pathBefore := proto.Clone(path)
 		callErr, pan = guard(func() error { return ytypes.DeleteNode(sch, root, path) })
@@ -363,6 +368,24 @@ func applyAct(e *Edge, root ygot.GoStruct, sch *yang.Entry, pkg *reg.Pkg, x *con
 		return nil, nil, "", nil, "", fmt.Errorf("unknown op %s", e.Act.Op)
 	}
 	return path, tv, want, callErr, pan, nil
+}
+
+// abstractDiff keeps the kind of each difference only (so that drift notes de-duplicate).
+func abstractDiff(d []string) string {
+	seen := map[string]bool{}
+	var out []string
+	for _, x := range d {
+		f := strings.Fields(x)
+		k := x
+		if len(f) >= 2 {
+			k = f[0] + " " + f[1]
+		}
+		if !seen[k] {
+			seen[k] = true
+			out = append(out, k)
+		}
+	}
+	return strings.Join(out, "; ")
 }
 
 func typeClass(x *conc.Ctx, ap []string) (keyTypes, leafType string) {
@@ -460,6 +483,31 @@ func checkStep(e *Edge, pkg *reg.Pkg, x *conc.Ctx, enc, prop string, root ygot.G
 		// GetNode is read-only
 		if after := conc.Restrict(abs.Project(root, pkg), x.V); !abs.Equal(after, got, true) {
 			res.Violate("C11", sigFor("C11", "getnode-mutates", e, pkg, x, enc), "GetNode changed the tree: "+strings.Join(abs.Diff(after, got, true), "; "), tc)
+		}
+	case "goc":
+		// extension beyond the listed properties: disagreements are drift notes
+		res.Count("goc_calls", 1)
+		kind := kindOfPath(e)
+		comp := map[bool]string{true: "compressed", false: "uncompressed"}[pkg.Compressed]
+		switch {
+		case callErr != nil:
+			res.Count("goc_errors", 1)
+			res.DriftNote(fmt.Sprintf("EXT goc: GetOrCreateNode of a %s (%s) fails: %.100s", kind, comp, callErr.Error()))
+		case len(abs.Diff(got, exp, false)) > 0:
+			// a pointer-typed leaf that is the target itself comes back allocated with the Go zero
+			// value (implementation-defined: the model leaves the leaf's value open)
+			d := abs.Diff(got, exp, false)
+			if ap, err := x.AbsPath(e.Act.P); err == nil && kind == "leaf" && len(d) == 1 && strings.HasPrefix(d[0], "unexpected: leaf "+abs.Pretty(ap.String())+" = ") {
+				res.Count("goc_leaf_zero_initialised", 1)
+				break
+			}
+			res.Count("goc_leaf_diffs", 1)
+			res.DriftNote(fmt.Sprintf("EXT goc: after GetOrCreateNode of a %s (%s) the leaves differ from the model: %.200s", kind, comp, abstractDiff(d)))
+		case len(abs.Diff(got, exp, true)) > 0:
+			res.Count("goc_container_diffs", 1)
+			res.DriftNote(fmt.Sprintf("EXT goc: after GetOrCreateNode of a %s (%s) the containers differ from the model: %.200s", kind, comp, abstractDiff(abs.Diff(got, exp, true))))
+		default:
+			res.Count("goc_agree", 1)
 		}
 	case "delete":
 		if d := abs.Diff(got, exp, true); len(d) > 0 {
